@@ -7,7 +7,8 @@ Open Scope Z_scope.
 (* The property, on an observation of the real code for message [m]. *)
 Definition C15_holds (skip : bool) (m : msg) (o : obs) : Prop :=
   (ob_after o = m /\ ob_fwd_same o = true) /\
-  (forall h b t full, ob_sections o = Some (h, b, t, full) -> h ++ b ++ t = full) /\
+  (forall h b t full, ob_sections o = Some (h, b, t, full) ->
+     h ++ b ++ t = full /\ exists p, h = p ++ crlf ++ crlf) /\
   (forall r, ob_reparse o = Some r -> option_map canon r = Some (canon m)) /\
   (skip = true -> ob_records o = 0%nat) /\
   ob_err o = false.
@@ -17,12 +18,13 @@ Proof.
   unfold c15_ok, C15_holds, forwarded_ok, sections_ok, reparse_ok, skip_ok.
   rewrite !andb_true_iff, msg_eqb_eq, negb_true_iff.
   assert (Hs : match ob_sections o with
-               | Some (h, b, t, full) => bytes_eqb (h ++ b ++ t) full
+               | Some (h, b, t, full) => bytes_eqb (h ++ b ++ t) full && ends_with (crlf ++ crlf) h
                | None => true
                end = true <->
-               (forall h b t full, ob_sections o = Some (h, b, t, full) -> h ++ b ++ t = full)).
+               (forall h b t full, ob_sections o = Some (h, b, t, full) ->
+                  h ++ b ++ t = full /\ exists p, h = p ++ crlf ++ crlf)).
   { destruct (ob_sections o) as [[[[h b] t] full]|].
-    - rewrite bytes_eqb_eq. split.
+    - rewrite andb_true_iff, bytes_eqb_eq, ends_with_iff. split.
       + intros H h' b' t' f' E. injection E as <- <- <- <-. exact H.
       + intros H. now apply H.
     - split; [discriminate | reflexivity]. }
@@ -51,12 +53,14 @@ Definition model_obs (lg : logger) (skip : bool) (m : msg) : obs :=
         (List.length (snd (run_logger lg skip m))) false.
 
 Lemma model_sections_partition lg m h b t full :
-  model_sections lg m = Some (h, b, t, full) -> h ++ b ++ t = full.
+  model_sections lg m = Some (h, b, t, full) ->
+  h ++ b ++ t = full /\ exists p, h = p ++ crlf ++ crlf.
 Proof.
   unfold model_sections. destruct lg as [o| | |]; try discriminate.
-  pose proof (sections_partition false o m) as Hs. fold snapshot in Hs.
-  destruct Hs as (_ & _ & _ & h' & b' & t' & Hh & Hb & Ht & Hcat).
-  rewrite Hh, Hb, Ht. intros E. injection E as <- <- <- <-. exact Hcat.
+  pose proof (sections_partition_full false o m) as Hs. fold snapshot in Hs. cbv zeta in Hs.
+  destruct Hs as (_ & _ & _ & h' & b' & t' & Hh & Hb & Ht & Hcat & He).
+  rewrite Hh, Hb, Ht. intros E. injection E as <- <- <- <-.
+  split; [exact Hcat | now apply ends_with_iff].
 Qed.
 
 Lemma model_satisfies_property lg skip m :
@@ -64,11 +68,10 @@ Lemma model_satisfies_property lg skip m :
   c15_ok skip m (model_obs lg skip m) = true.
 Proof.
   intros G. apply c15_ok_iff. unfold C15_holds, model_obs.
-  cbn. repeat split.
-  - now apply forwarded_unchanged.
-  - apply model_sections_partition.
-  - discriminate.
-  - intros ->. now rewrite skip_means_unrecorded.
+  cbn. split; [split; [now apply forwarded_unchanged | reflexivity]|].
+  split; [intros h b t full; apply model_sections_partition|].
+  split; [discriminate|]. split; [|reflexivity].
+  intros ->. now rewrite skip_means_unrecorded.
 Qed.
 
 (* ---------------- witnesses ---------------- *)
@@ -87,10 +90,15 @@ Proof. vm_compute. reflexivity. Qed.
 Lemma ex_empty_post_wf : wf_b ex_empty_post = true.
 Proof. vm_compute. reflexivity. Qed.
 
-Lemma legacy_snapshot_unparseable :
-  exists m, wf_b m = true /\ v_full (fst (snapshot_legacy default_opts m)) = true /\
-            parse_spec (m_isreq m) (v_message (fst (snapshot_legacy default_opts m))) = None.
+Lemma snapshot_with_trailers_unparseable :
+  exists m, wf_b m = true /\ v_full (fst (snapshot default_opts m)) = true /\
+            parse_spec (m_isreq m) (v_message (fst (snapshot default_opts m))) = None.
 Proof. exists ex_chunked. vm_compute. repeat split. Qed.
+
+Definition ex_chunked_nt : msg :=
+  mkMsg true (B "POST /x HTTP/1.1") (B "a.com") true (-1)
+        [(B "Accept", B "*/*"); (B "Content-Type", B "text/plain")]
+        false (B "hello") None.
 
 Lemma legacy_snapshot_changes_message :
   exists m, wf_b m = true /\ snd (snapshot_legacy default_opts m) <> m.
@@ -105,8 +113,8 @@ Lemma marbl_changes_nobody :
 Proof. exists ex_empty_post. split; [vm_compute; reflexivity|]. vm_compute. discriminate. Qed.
 
 Lemma ex_chunked_roundtrip :
-  parse_spec true (v_message (fst (snapshot default_opts ex_chunked))) = Some (canon ex_chunked)
-  /\ string_of_list_ascii (v_message (fst (snapshot default_opts ex_chunked)))
+  parse_spec true (v_message (fst (snapshot default_opts ex_chunked_nt))) = Some (canon ex_chunked_nt)
+  /\ string_of_list_ascii (v_message (fst (snapshot default_opts ex_chunked_nt)))
      = ("POST /x HTTP/1.1" ++ String CR (String LF "")
         ++ "Host: a.com" ++ String CR (String LF "")
         ++ "Transfer-Encoding: chunked" ++ String CR (String LF "")
@@ -115,6 +123,5 @@ Lemma ex_chunked_roundtrip :
         ++ String CR (String LF "")
         ++ "5" ++ String CR (String LF "") ++ "hello" ++ String CR (String LF "")
         ++ "0" ++ String CR (String LF "")
-        ++ "X-T: v" ++ String CR (String LF "")
         ++ String CR (String LF ""))%string.
 Proof. vm_compute. split; reflexivity. Qed.
